@@ -402,6 +402,75 @@ def r6(ctx):
                      key=f'fresh-result:{relpath}:{fn_name}', what=f'result of the cached {fn_name} is mutated by a caller')
 
 
+@rule('C10', 'C10-R7', 'counts are accumulated by plain addition into one table: assignReads adds each weight to a single (sample, key) cell (`table[sample][key] += w`, or '
+                       'Counter.update, which adds) - never with `table[sample] += <Counter>` (Counter.__iadd__ deletes every cell whose sum is not positive) - and the table '
+                       'that is exported is the table the reads were added to, or is merged from per-file tables cell by cell (dict.update on the outer level replaces the '
+                       'whole counter of a sample that occurs in two files)')
+def r7(ctx):
+    f = ctx.fn(COUNTTABLE, 'assignReads')
+    params = [a.arg for a in f.args.args]
+    tab = params[1] if len(params) > 1 else 'countTable'
+    n, bad, und = 0, [], []
+    for st in walk_no_nested(f):
+        tgt = None
+        if isinstance(st, ast.AugAssign):
+            tgt = st.target
+        elif isinstance(st, ast.Assign) and len(st.targets) == 1:
+            tgt = st.targets[0]
+        if tgt is not None and isinstance(tgt, ast.Subscript) and tab in names_in(tgt) and not (isinstance(st, ast.Assign) and tab not in names_in(tgt.value)):
+            base = tgt
+            depth = 0
+            while isinstance(base, ast.Subscript):
+                base, depth = base.value, depth + 1
+            if not (isinstance(base, ast.Name) and base.id == tab):
+                continue
+            n += 1
+            if isinstance(st, ast.AugAssign) and isinstance(st.op, ast.Add) and depth == 2:
+                continue
+            if isinstance(st, ast.AugAssign) and depth == 1:
+                bad.append((st, f'`{src(st)[:120]}` adds a whole counter to the counter of a sample: Counter.__iadd__ removes every cell whose running sum is zero or negative, '
+                                f'so a cell that was cancelled (by-value counting) restarts from 0 and zero cells vanish from the table'))
+            else:
+                und.append(st)
+        if isinstance(st, ast.Expr) and isinstance(st.value, ast.Call) and isinstance(st.value.func, ast.Attribute) and st.value.func.attr in ('update', 'subtract') \
+                and isinstance(st.value.func.value, ast.Subscript) and isinstance(st.value.func.value.value, ast.Name) and st.value.func.value.value.id == tab:
+            n += 1
+            if st.value.func.attr != 'update':
+                und.append(st)
+    ctx.need('C10-R7', n, 2, 'stores into the count table in assignReads')
+    for st, text in bad:
+        ctx.emit('C10-R7', False, COUNTTABLE, st, text, key='counts-added-per-cell', what='assignReads: counts are not accumulated by plain per-cell addition')
+    for st in und:
+        ctx.emit('C10-R7', False, COUNTTABLE, st, f'`{src(st)[:120]}`: not a recognised per-cell addition', key='counts-added-per-cell', undecided=True)
+    if not bad and not und:
+        ctx.emit('C10-R7', True, COUNTTABLE, f, f'{n} stores into `{tab}`: all add a weight to one (sample, key) cell', key='counts-added-per-cell')
+    # the exported table
+    g = ctx.fn(COUNTTABLE, 'create_count_table')
+    calls = [c for c in walk_no_nested(g) if isinstance(c, ast.Call) and dotted(c.func) == 'assignReads' and len(c.args) > 1]
+    exp = [c for c in walk_no_nested(g) if isinstance(c, ast.Call) and (dotted(c.func) or '').endswith('DataFrame.from_dict') and c.args and isinstance(c.args[0], ast.Name)]
+    ctx.need('C10-R7', len(calls), 1, 'assignReads call sites')
+    ctx.need('C10-R7', len(exp), 1, 'export of the count table')
+    out = exp[0].args[0].id
+    for c in calls:
+        a = c.args[1]
+        if isinstance(a, ast.Name) and a.id == out:
+            ctx.emit('C10-R7', True, COUNTTABLE, c, f'reads are added to `{out}`, the table that is exported', key=f'exported-table:{a.id}')
+            continue
+        if not isinstance(a, ast.Name):
+            ctx.emit('C10-R7', False, COUNTTABLE, c, f'assignReads adds to `{src(a)}`', key='exported-table', undecided=True)
+            continue
+        # a per-file table: how does it reach the exported one?
+        merges = [m for m in walk_no_nested(g) if isinstance(m, ast.Call) and isinstance(m.func, ast.Attribute) and m.func.attr == 'update' and src(m.func.value) == out and m.args and src(m.args[0]) == a.id]
+        if merges:
+            ctx.emit('C10-R7', False, COUNTTABLE, merges[0], f'reads are added to `{a.id}` and `{src(merges[0])}` copies it into the exported table: dict.update replaces the counter of every sample of this file, '
+                     f'the counts a sample collected from an earlier alignment file are lost', key=f'exported-table:{a.id}', what='create_count_table: per-file tables are merged by replacing, not adding')
+        else:
+            cellwise = [m for m in walk_no_nested(g) if isinstance(m, (ast.AugAssign, ast.Expr)) and out in names_in(m) and a.id in {n_ for l_ in walk_no_nested(g) if isinstance(l_, ast.For) and any(x is m for x in walk_no_nested(l_)) for n_ in names_in(l_.iter)}]
+            ok = any((isinstance(m, ast.AugAssign) and isinstance(m.op, ast.Add) and isinstance(m.target, ast.Subscript) and isinstance(m.target.value, ast.Subscript)) or
+                     (isinstance(m, ast.Expr) and isinstance(m.value, ast.Call) and isinstance(m.value.func, ast.Attribute) and m.value.func.attr == 'update' and isinstance(m.value.func.value, ast.Subscript)) for m in cellwise)
+            ctx.emit('C10-R7', ok, COUNTTABLE, c, f'reads are added to `{a.id}`' + (f', merged into `{out}` cell by cell' if ok else f'; how it reaches the exported `{out}` is not recognised'), key=f'exported-table:{a.id}', undecided=not ok)
+
+
 META = {
     'text': ('Decides for ALL coordinates, bin sizes and sliding increments: the first/last window indices computed by both '
              'copies of coordinate_to_sliding_bin_locations satisfy first - (p-b)/s in (0,1] and last - p/s in (-1,0] '
